@@ -10,7 +10,7 @@ from hypothesis import strategies as st
 from .. import core, rsmodel, omen_ref, session, strategies as S
 from ..core import Part, Violation, guard
 
-RULE = ("Hypothesis-generated synthetic rulesets (incl. Markov levels) x flag sets. (1) In-process: the real pcfg_guesser.main() "
+RULE = ("(Part large_groups: tied groups of 1000-20000 values, limits ending 1 / 999..1001 / 1023..1025 / 4095..4097 / n-1000 / n-1 / n / n+1 guesses into each big pre-terminal.) Hypothesis-generated synthetic rulesets (incl. Markov levels) x flag sets. (1) In-process: the real pcfg_guesser.main() "
         "is run unlimited (U) and with -n N for EVERY N in 1..total+2 (exhaustive per ruleset when total <= 80, otherwise all "
         "group boundaries +-1 plus generated N): stdout must equal U[:N]; U itself must be, segment by segment in queue order, "
         "the model-side expansion of each popped pre-terminal (Markov segments: the reference OMEN enumeration). (1b) a session is interrupted and resumed twice from the same saved state, unlimited and with -n N: the limited resume must be the first N lines of the unlimited one (N inside the restored Markov remainder included). (2) CLI: "
@@ -95,6 +95,17 @@ def prop_limit(case, rec):
         bounds.update((acc - 1, acc, acc + 1))
     if case.get('ns'):
         ns = case['ns']
+    elif case.get('threshold_ns'):
+        # big pre-terminals: limits that end 1 / 999 / 1000 / 1001 / 1023..1025 / 4095..4097 / n-1 / n / n+1 guesses into them
+        ns, acc = set(), 0
+        for i, (pt, _) in enumerate(u.pops, start=1):
+            n = sizes.get(i, 0)
+            if n >= 1000:
+                for k in (1, 2, 500, 999, 1000, 1001, 1023, 1024, 1025, 4095, 4096, 4097, 9999, 10000, 10001, n - 1000, n - 999, n - 1, n, n + 1):
+                    if 1 <= k <= n + 1:
+                        ns.add(acc + k)
+            acc += n
+        ns = sorted(ns)[:case.get('max_ns', 40)]
     elif total <= 80:
         ns = list(range(1, total + 3))
     else:
@@ -120,6 +131,27 @@ def cases(draw, max_pt):
                         families=['dyadic', 'tenths', 'count', 'float']))
     extra = draw(st.lists(st.integers(1, 400), max_size=8))
     return {'model': m, 'flags': flags, 'extra_ns': extra}
+
+
+@st.composite
+def large_cases(draw, sizes):
+    """A ruleset whose pre-terminals are big: a tied group of G >= 1000 values, alone and behind an alpha word."""
+    G = draw(st.sampled_from(sizes))
+    width = len(str(G)) + 1
+    big = ['9' + str(i).zfill(width - 1) for i in range(G)]
+    name = 'D' + str(width)
+    vars_ = {name: [[0.6, ['1' * width, '0' * width]], [0.4 / G, big]],
+             'A3': [[0.7, ['cat']], [0.3, ['dog']]], 'C3': [[0.75, ['LLL']], [0.25, ['ULL']]]}
+    base = [[name, 0.5], ['A3' + name, 0.3], ['A3', 0.2]]
+    m = {'encoding': 'utf-8', 'uuid': 'c09-large', 'vars': vars_, 'base': base, 'm_levels': []}
+    flags = {'skip_brute': False, 'skip_case': draw(st.booleans())}
+    return {'model': m, 'flags': flags, 'threshold_ns': True, 'max_ns': draw(st.sampled_from([24, 24, 40]))}
+
+
+def run_large(rec, seed, shard, nshards, tier):
+    n = {'quick': 3, 'thorough': 6}[tier]
+    sizes = {'quick': [1000, 1001, 1400, 2048], 'thorough': [1000, 1400, 4096, 5000, 10000, 20000]}[tier]
+    core.hyp_run(rec, prop_limit, large_cases(sizes), n, seed, shrink=False)
 
 
 def run_limit(rec, seed, shard, nshards, tier):
@@ -278,4 +310,5 @@ PARTS = [
     Part('limit_every_n', run_limit, prop_limit, {'quick': 8, 'thorough': 16}),
     Part('limit_on_resumed_session', run_resume_limit, prop_resume_limit, {'quick': 6, 'thorough': 16}),
     Part('cli_subprocess', run_cli_part, prop_cli, {'quick': 4, 'thorough': 8}),
+    Part('large_groups', run_large, prop_limit, {'quick': 2, 'thorough': 8}),
 ]
